@@ -72,8 +72,25 @@ Theorem C11_every_schedule_all_released :
   all_over s = true -> l < sc_nlocks sc -> w_raw (b_w s) l = raw_free.
 Proof. exact WpMain.every_schedule_all_released. Qed.
 
+
+(* interleaved model with pauses at call boundaries, every schedule: a call that is about to re-raise a panic of user code
+   (panic with a live guard, panic inside a scoped closure) holds nothing *)
+Theorem C11_every_schedule_panic_holds_nothing :
+  forall b sched t o k l, WpMain.wfB b = true ->
+  let sc := bs_sc b in
+  let s := fst (run_sched_g false false true (bs_wp b) (sc_env sc) (sc_nlocks sc) (binit b) sched) in
+  let th := get_thr (b_thr s) t in
+  th_over th = false -> th_cur th = Some (o, Op bpause_op k) -> k (VBool false) = Throw ->
+  guard (fst (api_fin (sc_env sc) (th_loc th) o OPanic)) = None ->
+  holds_b (b_w s) t l = false.
+Proof.
+  intros b sched t o k l W sc s th OV CU KE GN.
+  exact (WpMain.every_schedule_key_back_holds_nothing b sched t o k OPanic l W OV CU KE I GN).
+Qed.
+
 Print Assumptions C11_closure_panic.
 Print Assumptions C11_guard_panic.
 Print Assumptions C11_catch_reraises.
 Print Assumptions C11_every_history.
 Print Assumptions C11_every_schedule_all_released.
+Print Assumptions C11_every_schedule_panic_holds_nothing.
